@@ -219,6 +219,14 @@ pub struct World {
     pub ghost last: Option<Seq<u8>>,   // its content when the current operation began (None: absent)
     pub ghost ptr_new: Seq<u8>,        // the complete new content the current operation is allowed to commit
     pub ghost io_faults: nat,          // environmental I/O failures so far
+    // orchestration of one `run` (unit runhandle)
+    pub ghost recorded_id: int,                  // the id in <out>/tracking/run.json (0: no pointer yet)
+    pub ghost wiped: Set<int>,                   // slots whose directory has been removed and recreated by this run
+    pub ghost result_stored: Set<int>,           // slots holding a complete result file written by this run
+    pub ghost executed: bool,                    // the plan has been executed
+    pub ghost ran_groups: Seq<Seq<Seq<char>>>,   // target paths, group by group, of the plan that was executed
+    pub ghost argmap_log: Seq<(Seq<char>, Seq<char>)>,  // (target, argmap file) merge attempts, in order
+    pub ghost pointer_saved: Seq<int>,           // ids written to the run pointer, in order
     // lock (unit cli)
     pub ghost lock_held: bool,
 }
